@@ -19,7 +19,7 @@ RULE = ("Part A (exhaustive): retry budget r in 1..4 (quick: 1..3); each transmi
         "(transmissions at 0,2,4,.. while nothing has arrived; return at the earliest arrival T*<2r with floor(T*/2)+1 "
         "byte-identical transmissions, else TimeoutError at 2r after exactly r) compared on transmission count, virtual return "
         "time and outcome; with r=3 also Device._send_command()==[] and refresh() -> online False on timeout. Part B "
-        "(exhaustive): every single fault and ordered pair from {drop, drop incl. handshake, error packet, garbage, peer close, "
+        "(exhaustive): every single fault and ordered pair from {drop, drop incl. handshake, error packet, garbage, peer close, peer reset (mid-exchange or while idle), "
         "connect refused, connect hangs, cancel at each protocol phase} x {V2,V3} x {fresh object, established connection}, "
         "followed by a clean exchange immediately or after a pause (on V3 the user's single authenticate() call may have been abandoned during the 1 s settle pause after the handshake): faulty exchange ends within contract (frames / "
         "ProtocolError / TimeoutError / cancellation) and the clean exchange returns the device's reply (fresh handshake on V3 "
@@ -32,7 +32,7 @@ TOKEN = hashlib.sha512(b"c08 token").digest()
 KEY = hashlib.sha256(b"c08 key").digest()
 FRAME = bytes.fromhex("aa21ac8d000000000003418100ff03ff000200000000000000000000000003016971")
 DELAYS = [0.05, 1.0, 1.95, 2.05, 3.0, 3.95, 4.05, 6.5]
-FAULTS = ["drop", "drop_hs", "error", "garbage", "close", "refuse", "hang",
+FAULTS = ["drop", "drop_hs", "error", "garbage", "close", "reset", "idle_reset", "refuse", "hang",
           "cancel:hs_wait", "cancel:hs_pause", "cancel:data_wait", "cancel:retransmit"]
 
 
@@ -47,7 +47,8 @@ def reference_retry(r: int, pattern: list):
             break
         sent += 1
         if pattern[i] is not None:
-            arrivals.append(t_send + pattern[i])
+            # answers travel on one TCP stream: a later answer cannot overtake an earlier one
+            arrivals.append(max(t_send + pattern[i], arrivals[-1] if arrivals else 0.0))
     ok = [a for a in arrivals if a < 2.0 * r]
     if ok:
         t = min(ok)
@@ -233,6 +234,8 @@ def check_faults(case: dict):
                 return ("garbage", bytes.fromhex(case.get("garbage", "00112233445566778899")))
             if k == "close":
                 return ("close",)
+            if k == "reset":
+                return ("reset",)
             return None
 
         dev.on_data = on_data
@@ -272,10 +275,23 @@ def check_faults(case: dict):
             if not r:
                 out["setup"] = "established exchange failed"
                 return
+            if version == 3 and case.get("near_wrap"):
+                # a connection that has been up for days: the 2-byte packet counter is about to run out of its field
+                for i in range(16 + case["near_wrap"]):
+                    if i < 16:
+                        lan._protocol._packet_id += 4094      # 16 x 4095 packets later ...
+                    if not await exchange():
+                        out["setup"] = "exchange failed while ageing the connection"
+                        return
 
         for f in faults:
             mode["kind"] = f
             alive_before = lan._alive
+            if f == "idle_reset":
+                # the peer resets the connection while nothing is in flight; the next exchange is the "faulty" one
+                for c in dev.conns:
+                    c.close(reset=True)
+                await asyncio.sleep(0.01)
             if f == "refuse":
                 dev.connect_script.append("refuse")
             elif f == "hang":
@@ -406,7 +422,7 @@ def run(ctx) -> None:
     for version in (2, 3):
         for r in (2, 3):
             firsts = [p for p in itertools.product([None] + DELAYS, repeat=r)
-                      if reference_retry(r, list(p))[0] == "frames" and sum(1 for i, d in enumerate(p) if d is not None and 2 * i < reference_retry(r, list(p))[1]) >= 2]
+                      if reference_retry(r, list(p))[0] == "frames" and sum(1 for i, d in enumerate(p) if d is not None and 2 * i <= reference_retry(r, list(p))[1]) >= 2]
             seconds = [tuple([None] * r), tuple([0.05] + [None] * (r - 1)), tuple([None] * (r - 1) + [0.05]), tuple([2.05] + [None] * (r - 1))]
             for p1 in firsts:
                 for p2 in seconds:
@@ -431,6 +447,8 @@ def run(ctx) -> None:
                     case = {"part": "B", "version": version, "established": established, "faults": list(faults), "pause": pause}
                     if version == 3 and m % 3 == 0:
                         case["start"] = "auth_cancel_pause"
+                    if version == 3 and established and m % 5 == 0:
+                        case["near_wrap"] = 17
                     ctx.check(case, lambda c: _run_one(ctx, c))
     ctx.sweep("part B: single faults and ordered pairs x {V2,V3} x {fresh,established} x {immediately, after a pause}", m, True)
 
@@ -439,5 +457,5 @@ def run(ctx) -> None:
         "faults": st.lists(st.sampled_from(FAULTS), min_size=1, max_size=6),
         "pause": st.sampled_from([0.0, 0.0, 0.01, 0.04, 0.06, 0.5, 1.2, 3.0, 30.0]),
         "cancel_jitter": st.sampled_from([0.0, 0.0, 0.01, -0.01, 0.025]),
-        "garbage": st.binary(min_size=1, max_size=40).map(lambda b: b.hex()), "start": st.sampled_from(["auth", "auth", "auth_cancel_pause"])})
+        "garbage": st.binary(min_size=1, max_size=40).map(lambda b: b.hex()), "start": st.sampled_from(["auth", "auth", "auth_cancel_pause"]), "near_wrap": st.sampled_from([0, 0, 0, 17])})
     ctx.hyp("part C", cases, lambda c: _run_one(ctx, c), ctx.n(1600, 96000))
